@@ -12,12 +12,15 @@ import random
 import typing
 from typing import Any, Dict, List, Optional, Tuple
 
-STR_POOL = ["x", "", "123", "007", "-5", "true", "hé \U0001f600", "a\nb c", "file:///tmp/a b", "1.5"]
+STR_POOL = ["x", "", "123", "007", "-5", "true", "h\u00e9 \U0001f600", "a\nb\u2028c", "file:///tmp/a b", "1.5", " padded ", "\ttab\n"]
 INT_POOL = [0, 1, -1, 5, 2**53 + 1]
 FLOAT_POOL = [0.5, 0.0, 1, 0, 1e308, -2.5]
 ANY_POOL = [None, True, 0, 1.5, "s", [], {}, [1, None, {"a": None}], {"k": None, "n": {"m": [1.0, 2]}}, "123", 2**63]
 DICT_ANY_POOL = [{}, {"k": None}, {"type": "object", "properties": {"a": {"type": "string", "default": None}}, "required": ["a"]},
                  {"n": 1, "f": 1.0, "b": True, "s": "123", "l": [None, 1], "d": {"x": None}}, {"_meta": {"progressToken": 7}}]
+
+
+SPEC_WIRE_NAMES = {"meta": "_meta", "schema_": "schema"}
 
 
 def discover_models(include_transports: bool = False) -> Dict[str, type]:
@@ -139,11 +142,12 @@ class Gen:
         return vs
 
     def fields(self, cls) -> List[Tuple[str, str, Any, bool]]:
-        """[(attr, wire name, annotation, required)]"""
+        """[(attr, wire name, annotation, required)].  The wire name of the MCP members that are not valid
+        Python attribute names is pinned here (spec), not read from the declaration."""
         hints = _hints(cls)
         out = []
         for attr, f in cls.model_fields.items():
-            wire = f.alias or attr
+            wire = SPEC_WIRE_NAMES.get(attr) or f.alias or attr
             out.append((attr, wire, hints.get(attr, f.annotation), f.is_required()))
         return out
 
